@@ -26,6 +26,8 @@ def main():
             import check_session as M
         elif a.prop == 'C04':
             import check_framing as M
+        elif a.prop == 'C20':
+            import check_msglog as M
         else:
             print('unknown property %s' % a.prop, file=sys.stderr)
             return 2
